@@ -697,6 +697,13 @@ pub fn gen_caps(rng: &mut Rng, repl: bool, allow_small: bool) -> Vec<usize> {
     v
 }
 
+/// run the plan and the property oracles without recording an operation line (search mode)
+pub fn emit_oracles(out: &mut Out, p: &EPlan, props: &[&str]) {
+    trace_op(&plan_lhs(p));
+    let o = run_plan(p, 0);
+    oracles(out, p, &o, props);
+}
+
 pub fn emit(out: &mut Out, p: &EPlan, props: &[&str]) {
     trace_op(&plan_lhs(p));
     let o = run_plan(p, 0);
@@ -759,6 +766,31 @@ pub fn generate(prop: &str, out: &mut Out, thorough: bool, seed: u64) -> bool {
                 let m = min_cap(repl);
                 p.caps = if prop == "C07" { vec![crate::dec::QUERY_CAP] } else { vec![(l + rng.below(5)).max(m + 1) - 1, m + rng.below(4)] };
                 emit(out, &p, &props);
+            }
+        }
+        // search for a failing input after a proof obligation broke (check sets VERIF_SEARCH; oracles only, no
+        // operation lines): every scalar value, 32 per history, so that a single changed entry of any encode
+        // table or range has a concrete failing input
+        if std::env::var("VERIF_SEARCH").is_ok() && matches!(prop, "C12" | "C03") && e.output_encoding() != encoding_rs::UTF_8 {
+            let mut chunk: Vec<u16> = Vec::new();
+            let mut n = 0usize;
+            for c in 0..=0x10FFFFu32 {
+                if let Some(ch) = char::from_u32(c) {
+                    let mut b = [0u16; 2];
+                    chunk.extend_from_slice(ch.encode_utf16(&mut b));
+                    n += 1;
+                    if n == 32 {
+                        let mut p = EPlan { enc: e, utf16: (c / 256) % 2 == 0, repl: true, units16: std::mem::take(&mut chunk), cuts: vec![], caps: vec![4096] };
+                        p.cuts = vec![p.src_len()];
+                        emit_oracles(out, &p, &props);
+                        n = 0;
+                    }
+                }
+            }
+            if !chunk.is_empty() {
+                let mut p = EPlan { enc: e, utf16: true, repl: true, units16: chunk, cuts: vec![], caps: vec![4096] };
+                p.cuts = vec![p.src_len()];
+                emit_oracles(out, &p, &props);
             }
         }
         // boundary pass: every constant of the source (and its neighbours) between two ASCII characters,
